@@ -295,6 +295,7 @@ class Oracles:
         self.points = {}
         self.hyp_fail = []
         self.cond = 1.0
+        self.auto_obs = []
 
     def f_at(self, arr):
         arr = np.asarray(arr)
@@ -311,6 +312,7 @@ class Oracles:
         rule = self.rule
         if rule == "Auto":
             rule = "Eigh" if psd else "Eig"
+            self.auto_obs.append(f"mkaucase {'true' if psd else 'false'} true U{rule}")
         if rule == "Eigh":
             w, V = xnp.eigh(Ad)
             W = V.conj().T
@@ -438,6 +440,7 @@ def run(ctx):
     evals, distinct = 0, set()
     uterms, umeta = [], []
     kterms, kmeta = [], []
+    auterms = []
     unreachable = {}
 
     def bump(d, k):
@@ -539,6 +542,7 @@ def run(ctx):
         sc = max(1.0, float(np.abs(Y).max()))
         mtol = (1e-3 if f32 else 1e-9) * sc * min(orc.cond, 1e3) * max(1, n)
         uterms.append(f"mkucase {n} {term} {call} {tab} {k} {L.qmat(X)} {L.qc_lit(mtol ** 2)} {L.qmat(Y)}")
+        auterms.extend(orc.auto_obs)
         umeta.append(dict(case=case_js, bad=bad, got=dict(FX=np.round(Y, 8).tolist() if not cplx else "complex")))
 
     # ---------------- B. integer powers, exact tier (Gaussian integers): k = 0, 1..9 as repeated products, also through Kronecker
@@ -744,6 +748,7 @@ def run(ctx):
             tab = "[" + ";".join(f"({a},{b})" for a, b in orc.points.items()) + "]"
             sc = max(1.0, float(np.abs(Y).max()))
             uterms.append(f"mkucase {n} {term} (CUnary MGeneric) {tab} {k} {L.qmat(X)} {L.qc_lit((1e-9 * sc * min(orc.cond, 1e3) * n) ** 2)} {L.qmat(Y)}")
+            auterms.extend(orc.auto_obs)
             umeta.append(dict(case=case_js, bad=[], got={}))
 
     # ---------------- in-Coq comparison
@@ -758,6 +763,12 @@ def run(ctx):
     for i, m in enumerate(umeta):
         if i in fails or m["bad"]:
             mism.append(dict(oracle_fail=bool(m["bad"]), case=m["case"], got=m["got"], failed_clauses=m["bad"], model_disagrees=(i in fails)))
+    if auterms:
+        outs, shard = L.run_shards("c09_a", HEADER, "aucase", auterms, "Eval vm_compute in (failing_from check_aucase 0 cases).", shard=400)
+        for si, (rc, out) in enumerate(outs):
+            lst = L.parse_natlist(out) if rc == 0 else None
+            if lst is None or lst:
+                mism.append(dict(oracle_fail=False, harness_error=f"Auto table: shard {si} rc={rc} failing={lst}\n{out[-800:]}"))
     kfails = set()
     if kterms:
         outs, shard = L.run_shards("c09_k", HEADER, "kcase", kterms, "Eval vm_compute in (failing_from check_kcase 0 cases).", shard=40)
@@ -777,7 +788,7 @@ def run(ctx):
              "C: whole operators (PSD, singular PSD for exp, general right-half-plane, complex) x {Auto, Eig, Eigh, Lanczos, Arnoldi; caps below/at/above n, default}: scipy oracle at 1e-8 "
              "and the Krylov plumbing model with the factorisation as oracle data; distinct by case hash",
         samples=samples, mismatches=mism, findings=fnd,
-        extra=dict(histogram=hist, skipped_spoiled_region=skipped, unary_cases_in_coq=len(uterms), krylov_columns_in_coq=len(kterms),
+        extra=dict(histogram=hist, skipped_spoiled_region=skipped, unary_cases_in_coq=len(uterms), krylov_columns_in_coq=len(kterms), auto_rule_observations=len(auterms),
                    unreachable_on_numpy_backend=unreachable,
                    notes=["exp(KronSum) / pow(Kronecker) structural rules are only selected with an explicit alg argument (without it the dense rule runs): values agree, "
                           "recorded as a cost observation, not a finding", "LanczosUnary pops 'start_vector' from its stored kwargs at the first product: no effect on values"]))
